@@ -6,6 +6,7 @@ from sim import gen_beh, norm
 from sim.core import Chooser, EventLog, Violation, stable_hash
 
 
+IO_FAULT_FILES = ["noped_insns.json", "grammar.lark", "qemu_rzil_macros.json", "sub_routines.json", ".json"]
 DEEP = ["{ RdV = " + "~" * n + "5; }" for n in (300, 600, 700)] + ["{ RdV = 1" + " + 1" * 200 + "; }"]
 
 
@@ -38,6 +39,20 @@ class EngineC14(HistEngine):
                              ("add_macro", 1), ("shortcode", 1 if ch.chance(1, 6, "sc?") else 0),
                              ("deep", 1 if fail_w and ch.chance(1, 3, "deep?") else 0), ("again", 2 if ops else 0),
                              ("deeptree", 1 if ch.chance(1, 3, "deeptree?") else 0)], "opkind")
+            if k == "new" and ch.chance(1, 3, "io-fault"):
+                # the constructor meets an I/O fault: it may fail (nothing is created, later operations go to the other
+                # instances) - but if it comes back with an instance, that instance compiles like any other
+                fmt = ch.choice(FMTS, "newfmt")
+                match = ch.choice(IO_FAULT_FILES, "iofile")
+                kind_ = ch.choice(["EIO", "EMFILE", "ENOENT"] + (["torn"] if match.endswith(".json") else []), "iokind")
+                ops.append({"op": "new_compiler", "fmt": fmt, "io_fault": {"match": match, "kind": kind_, "nth": 1}})
+                would_be = len(insts)
+                for _ in range(ch.randint(1, 3, "after-io")):
+                    name, parts, origin = self.gen_input(ch, 0)
+                    if self.noped and ch.chance(1, 2, "noped-after-io"):
+                        name = ch.choice(self.noped, "noped-io")
+                    ops.append({"op": "insn", "inst": would_be, "name": name, "parts": parts, "via": "transform_insn"})
+                continue
             if k == "new":
                 fmt = ch.choice(FMTS, "newfmt")
                 ops.append({"op": "new_compiler", "fmt": fmt})
@@ -51,6 +66,12 @@ class EngineC14(HistEngine):
             inst = ch.draw(len(insts), "inst")
             if k == "add_sub":
                 s = ch.choice(SUB_CATALOGUE, "sub")
+                for dep in s.get("needs", ()):
+                    if dep not in subs and ch.chance(3, 4, "register-dependency"):
+                        # the routine it calls is registered first - on any instance
+                        d = next(x for x in SUB_CATALOGUE if x["name"] == dep)
+                        ops.append(dict(d, op="add_sub", inst=ch.draw(len(insts), "depinst")))
+                        subs.append(dep)
                 callers = SUB_CALLERS.get(s["name"], [])
                 if callers and s["name"] not in subs and ch.chance(1, 2, "call-before-registration"):
                     # a call compiled while the routine is still unknown (rejected), the registration, the call again
@@ -60,7 +81,7 @@ class EngineC14(HistEngine):
                     subs_after = subs + ([s["name"]] if s["name"] not in subs else [])
                     ops.append({"op": ch.choice(["stmt", "stmt", "fresh"], "caentry"), "inst": ch.draw(len(insts), "cainst"),
                                 "code": ch.choice(callers, "ca"), "fmt": insts[0]})
-                if s["name"] != "vf_bad" and s["name"] not in subs:
+                if s["name"] not in ("vf_bad", "vf_bad2") and s["name"] not in subs and all(n in subs for n in s.get("needs", ())):
                     subs.append(s["name"])
                 continue
             if k == "add_macro":
@@ -217,6 +238,14 @@ class EngineC14(HistEngine):
             kind = op["op"]
             out.count("op_" + kind)
             if kind == "new_compiler":
+                if op.get("io_fault"):
+                    out.count("io_fault_" + op["io_fault"]["kind"])
+                    out.count("io_fault_fired" if o.get("fault_fired") else "io_fault_not_reached")
+                    if o["status"] != "ok":
+                        out.count("constructor_failed_on_io_fault")
+                        failure_seen = True
+                        log.add("new-io-fault", op["fmt"], o["status"], o.get("exc"))
+                        continue
                 if o["status"] == "ok":
                     insts.append(op["fmt"])
                     out.count("instances_created")
@@ -230,10 +259,13 @@ class EngineC14(HistEngine):
                 if o["status"] != "ok":
                     failure_seen = True
                     out.count("natural_failure_" + o.get("exc", "?"))
+                    # a registration that a fresh compiler accepts (after the same earlier registrations) must be accepted
+                    if op["name"] not in subs and self.ref_sub(workload["fmt0"], op["name"], tuple(subs)) is not None:
+                        viol(step, "registration-rejected", o.get("exc", ""), routine=op["name"], msg=o.get("msg"), registered=list(subs))
                 log.add("add_sub", op["name"], o["status"], stable_hash(o.get("def", ""))[:12])
                 # a sub-routine definition is itself a compilation result: same text on every history
                 if o["status"] == "ok":
-                    r = self.ref_sub(workload["fmt0"], op["name"])
+                    r = self.ref_sub(workload["fmt0"], op["name"], tuple(x for x in subs if x != op["name"]))
                     if r is not None and norm.normalise(o["def"]) != r:
                         viol(step, "sub-def", op["name"], diff=norm.first_difference(norm.normalise(o["def"]), r))
                 continue
@@ -338,13 +370,15 @@ class EngineC14(HistEngine):
         if compared_ops >= 2 and nontrivial_marks:
             out.see("nontrivial", wl_digest)
 
-    def ref_sub(self, fmt, name):
-        key = ("subdef", fmt, name)
+    def ref_sub(self, fmt, name, before=()):
+        s = next((s for s in SUB_CATALOGUE if s["name"] == name), None)
+        if s is None:
+            return None
+        deps = tuple(n for n in before if n in s.get("needs", ()))
+        key = ("subdef", fmt, name, deps)
         if key not in self.refs:
-            s = next((s for s in SUB_CATALOGUE if s["name"] == name), None)
-            if s is None:
-                return None
-            o = self.sim.execute(fmt, [dict(s, op="add_sub", inst=0)])[-1]
+            pre = [dict(x, op="add_sub", inst=0) for x in SUB_CATALOGUE if x["name"] in deps]
+            o = self.sim.execute(fmt, pre + [dict(s, op="add_sub", inst=0)])[-1]
             self.refs[key] = norm.normalise(o["def"]) if o["status"] == "ok" else None
         return self.refs[key]
 
